@@ -60,6 +60,13 @@ KNOWN = [
            "deadlock on slice locks (history contains an eviction during a concurrent batch)",
       rules=["ApiErr", "DiscardErr", "Deadlock", "Budget"], tags=["hist:eviction_during_concurrency"],
       reproducer="findings/C07-eviction-race.json", domain="conc"),
+ dict(id="C08-slice-eviction-under-concurrency", property="C08",
+      what="same root cause as C06-slice-eviction-under-concurrency, in the refcount-block cache: with concurrent allocations "
+           "and a cache smaller than the slices in use, the slice holding a new refcount block's self-reference (or fresh "
+           "increments) is evicted and reloaded stale, so clusters already in use are handed out again (a cache slice was "
+           "evicted while concurrent allocations ran)",
+      rules=["Ownership"], tags=["hist:eviction_during_concurrency"],
+      reproducer="findings/C08-eviction-race.json", domain="allocator"),
  dict(id="C12-refcount-table-growth", property="C12",
       what="growing the refcount table does not work: RefTable::clone_and_grow is called with its arguments in a different order "
            "from its signature (panic in the slice copy for some geometries), grow_reftable frees the old table while the caller "
